@@ -103,7 +103,16 @@ def check_tree(col, sub, bounds, p, page_size, queries, copied=None):
     case0 = {"sub": sub, "d": bounds.shape[1] // 2, "bounds": jsonable(bounds) if bounds.shape[0] <= 64 else "large:%d" % bounds.shape[0],
              "p": p, "page_size": page_size, "copied": copied}
     try:
-        tree = HilbertRtree(bounds, p=p, page_size=page_size)
+        if copied == "caller_overwrites":
+            # the caller's own C-contiguous float64 array: left unchanged by the construction, and the caller may reuse it
+            arg = np.ascontiguousarray(bounds, dtype=np.float64).copy()
+            tree = HilbertRtree(arg, p=p, page_size=page_size)
+            if not np.array_equal(arg, np.asarray(bounds, dtype=np.float64), equal_nan=True):
+                col.violation("rtree.argument_modified", dict(case0, query=None), "HilbertRtree(bounds) modified its argument")
+            arg[...] = -12345.0
+            del arg
+        else:
+            tree = HilbertRtree(bounds, p=p, page_size=page_size)
         if copied == "pickle":
             import pickle
             tree = pickle.loads(pickle.dumps(tree))
@@ -375,7 +384,7 @@ def run(ctx):
                         qs = shape_queries(b)
                         for pi, p in enumerate(plist_shape):
                             check_tree(col, "shape:%s:%s" % (fam, vname), b, p, ps, qs,
-                                       copied=(None, "pickle", "deepcopy", "pickle_after_query")[(idx + pi) % 4])
+                                       copied=(None, "pickle", "deepcopy", "pickle_after_query", "caller_overwrites")[(idx + pi) % 5])
         if ci == 0:
             check_seam(col)
         if ci in (4, 5):
